@@ -133,7 +133,9 @@ class RemoteServer():
                     else:
                         logger.debug('Waiting for the RemoteWorker object...')
                         try:
-                            child = recv_msg(cli, { '_socket': cli, '_reset_sigterm_hnd': True }, comment='server: remote worker')
+                            # the worker registers itself in self.children right before it starts its backend process, so that there
+                            # is no moment at which a running backend is unknown to the server
+                            recv_msg(cli, { '_socket': cli, '_reset_sigterm_hnd': True, '_register_remote_child': self.children.append }, comment='server: remote worker')
                         except ConnectionClosedError:
                             logger.info('Client disconnected before child was successfully created')
                             continue
@@ -145,7 +147,6 @@ class RemoteServer():
                             cli.close()
                             continue
 
-                        self.children.append(child)
                 else:
                     result = True
                     try:
